@@ -15,18 +15,56 @@ E_K = z3.Function('E_K', B128, B64, B8)
 D_K = z3.Function('D_K', B128, B64, B8)
 
 
-def _pack(tr, p, bl):
+class OldView:
+    """atold(p): the bytes p points to, as they were in the ENTRY state (p itself is a current value)"""
+
+    def __init__(self, ptr):
+        self.ptr = ptr
+
+
+def atold(tr, args):
+    p = args[0]
+    if isinstance(p, OldView):
+        return p
+    if not tr.ctx.is_ptr(p):
+        raise ClauseError('atold of a non-pointer')
+    return OldView(p)
+
+
+def _blen(tr, bl):
     bl = shrink(tr.as_tv(bl))
     if not z3.is_bv_value(bl.bv):
         raise ClauseError('block length must be a literal in this configuration')
     n = bl.bv.as_long()
     if n not in (8, 16):
         raise ClauseError('block length %d' % n)
-    bs = [tr.ctx.elem(p, z3.BitVecVal(j, 64), tr.old).bv for j in range(n)]
+    return n
+
+
+def _bytes(tr, p, n):
+    if isinstance(p, OldView):
+        return [tr.ctx.elem(p.ptr, z3.BitVecVal(j, 64), True).bv for j in range(n)]
+    return [tr.ctx.elem(p, z3.BitVecVal(j, 64), tr.old).bv for j in range(n)]
+
+
+def _concat(bs, n):
     blk = z3.Concat(*reversed(bs))
     if n < 16:
         blk = z3.ZeroExt(128 - 8 * n, blk)
     return blk
+
+
+def _pack(tr, p, bl):
+    n = _blen(tr, bl)
+    return _concat(_bytes(tr, p, n), n)
+
+
+def ekx(tr, args):
+    """ekx(p, q, bl, t): byte t of E_K(p[0..bl) xor q[0..bl)); p, q may be atold(...) views"""
+    p, q, bl, t = args
+    n = _blen(tr, bl)
+    bs = [a ^ b for a, b in zip(_bytes(tr, p, n), _bytes(tr, q, n))]
+    return TV(E_K(_concat(bs, n), to_index(tr.as_tv(t))), False)
 
 
 def ek(tr, args):
@@ -43,13 +81,16 @@ def add_to(R):
     R.helpers = getattr(R, 'helpers', {})
     R.helpers['ek'] = ek
     R.helpers['dk'] = dk
-    note = 'abstract block cipher: out[0..n) = blockwise E_K/D_K(in[0..n)), nothing else written (assumed, see contracts/c/blockcipher.py)'
+    R.helpers['ekx'] = ekx
+    R.helpers['atold'] = atold
+    note = 'abstract block cipher: out[0..n) = blockwise E_K/D_K(in[0..n)), nothing else written, returns 0 (assumed, see contracts/c/blockcipher.py)'
     for name, h in (('block_encrypt', 'ek'), ('block_decrypt', 'dk')):
         R.fn(name, abstract=True, params=['state', 'in', 'out', 'data_len'], ret='int',
              regions={'state': 'struct', 'in': 'u8[data_len]', 'out': 'u8[data_len]'}, modifies=['out'],
              configs=[{'name': 'default', 'alias': [('in', 'out')]}],
              requires={'whole_blocks': 'data_len % state.block_len == 0'},
-             ensures={'blocks': 'all(out[k] == old(%s(in + (k // state.block_len) * state.block_len, state.block_len, k %% state.block_len)) '
+             ensures={'ok': 'result == 0',      # block_common.c: ERR_NULL / ERR_NOT_ENOUGH_DATA only for what `requires` excludes
+                      'blocks': 'all(out[k] == old(%s(in + (k // state.block_len) * state.block_len, state.block_len, k %% state.block_len)) '
                                 'for k in range(data_len))' % h},
              note=note)
         R.funcptr_contracts[name] = name
